@@ -49,6 +49,9 @@ def pair_sets(draw, vector=False):
     nf = draw(st.integers(1, 5))
     base = draw(st.sampled_from([0.0, 0.0, 5.0, -1000.0, 123456.0]))
     forces = [[base + draw(st.integers(-20, 20)), base + draw(st.integers(-20, 20))] for _ in range(nf)]
+    # forces at exactly the same place (re-occupied stations, crossing survey lines): each one still contributes its own term to the sum
+    for _ in range(draw(st.sampled_from([0, 0, 0, 1, 2]))):
+        forces.insert(draw(st.integers(0, len(forces))), list(draw(st.sampled_from(forces))))
     nobs = draw(st.integers(1, 6))
     obs = []
     for _ in range(nobs):
